@@ -595,6 +595,19 @@ func (e *specEnv) call(s *SExpr) Val {
 			i.T, vc.intSort(), j.T, vc.intSort(),
 			vc.cmp("<=", vc.intLit(0), i.T, true), vc.cmp("<", i.T, j.T, true), vc.cmp("<", j.T, vc.slLen(sv), true),
 			vc.slArr(sv), i.T, vc.slArr(sv), j.T))
+	case "as":
+		// as(x, "T"): x converted to the (interface) type T
+		if len(args) != 2 || args[1].Op != "str" {
+			e.fail("as(x, \"Type\")")
+		}
+		t := x.prog.resolveType(e.pkgPath, args[1].Name)
+		if t == nil {
+			e.fail("as: unknown type %s", args[1].Name)
+		}
+		return x.convertTo(e.st, argv(0), t)
+	case "any":
+		// any(x): x converted to interface{} (as a sync.Map key, for instance)
+		return x.convertTo(e.st, argv(0), types.NewInterfaceType(nil, nil))
 	case "fresh":
 		// fresh(p): the reference p was allocated during the call/function (not before its entry)
 		if e.old == nil {
